@@ -38,16 +38,18 @@ def filtered_inputs(ck):
     ck.rule('watch: a target whose input lists one directory twice under two extension filters (and a second directory under one '
             'of them): modify / create / rename-over / move-in / delete of files selected by either resource, between irrelevant '
             'operations; every operation on a declared input must be followed by a run within 5 s')
-    jobs = [random.Random(ck.rng.getrandbits(48)) for _ in range(n)]
+    jobs = [(random.Random(ck.rng.getrandbits(48)), None) for _ in range(n)]
+    # always: an input declared as ONE FILE, saved atomically (written elsewhere, renamed over it) several times in a row
+    jobs.append((random.Random(ck.rng.getrandbits(48)), ['file_rename_over', 'file_rename_over', 'file_modify', 'file_rename_over']))
     with concurrent.futures.ThreadPoolExecutor(max_workers=3) as ex:
-        for obs, V in ex.map(lambda r: watchrun.filter_scenario(r, n_ops=10, tag='C06f%d' % r.getrandbits(20)), jobs):
-            ck.count(('filtered-inputs', tuple(obs['ops'])), sample={'operations': obs['ops'], 'runs(filtered, unfiltered)': obs['runs']})
+        for obs, V in ex.map(lambda a: watchrun.filter_scenario(a[0], n_ops=10, tag='C06f%d' % a[0].getrandbits(20), ops=a[1]), jobs):
+            ck.count(('filtered-inputs', tuple(obs['ops'])), sample={'operations': obs['ops'], 'runs(filtered, unfiltered, single file)': obs['runs']})
             for text in V.get('C16', []):
                 if 'did not trigger' in text or 'exited' in text:
                     ck.violation({'kind': 'real-watcher', 'what': 'a change to a declared input was never rebuilt: ' + text,
                                   'operations': obs['ops'],
                                   'replay': 'zinoma --watch on a target with input [{paths:[src],extensions:[txt]}, '
-                                            '{paths:[src,docs],extensions:[md]}] (either order); perform the listed operations'},
+                                            '{paths:[src,docs],extensions:[md]}] (either order), a second one with input paths [any], a third with input paths [conf/settings.ini]; perform the listed operations (file_* act on conf/settings.ini)'},
                                  found_input=True)
 
 
